@@ -665,6 +665,8 @@ fn directed_spend(t: &mut Trace) {
     s.advance(t, 30);
     s.try_enforce(t, 'l', 0, 0, &[0], "x:10", &[0], &[0]);
     s.try_enforce(t, 'l', 0, 0, &[0], "t:10", &[], &[0]); // no authenticated signer
+    s.try_enforce(t, 'l', 0, 0, &[], "t:10", &[], &[0]); // ... on a rule that has no signers of its own either
+    s.try_enforce(t, 'l', 0, 0, &[], "t:10", &[0], &[0]); // a policy-only rule, somebody authenticated
     s.try_enforce(t, 'l', 0, 0, &[0], "t:10", &[0], &[1]); // account did not authorize
     s.try_enforce(t, 'l', 0, 0, &[0], "t:10", &[0], &[]);
     s.try_enforce(t, 'l', 0, 0, &[0], "t:10", &[3, 4], &[0, 2]);
@@ -1074,7 +1076,9 @@ fn gen_spend(rng: &mut Rng, s: &mut Sim, t: &mut Trace, key_bias: (usize, u32)) 
             };
             let ctx = gen_ctx(rng, amt);
             let sg = if rng.chance(6) { vec![] } else { subset(rng, NS, 40).into_iter().chain(std::iter::once(1)).collect() };
-            s.try_enforce(t, 'l', a, r, &[0, 1], &ctx, &sg, &auth);
+            // now and then the rule the policy sits on has NO signers of its own (a policy-only rule)
+            let rs: Vec<usize> = if rng.chance(12) { vec![] } else { vec![0, 1] };
+            s.try_enforce(t, 'l', a, r, &rs, &ctx, &sg, &auth);
         }
     }
 }
